@@ -201,7 +201,8 @@ func genStructTy(r *Rng, depth int, allowEmbed bool) *GTy {
 		}
 		switch r.Intn(9) {
 		case 0, 1:
-			f.TagHas, f.TagName = true, "t_"+strings.ToLower(name)
+			// tag names may carry punctuation and spaces (encoding/json accepts them too)
+			f.TagHas, f.TagName = true, r.Pick([]string{"t_", "t_", "t_", "@", "$", "a.", "x:", "full "})+strings.ToLower(name)
 		case 2:
 			f.TagHas, f.TagName, f.Omit = true, "o_"+strings.ToLower(name), true
 		case 3:
@@ -620,6 +621,44 @@ type dReading struct {
 	Name   string
 	Values []any
 	Extra  map[string]any
+	Any    any
+}
+
+// untypeNilMapMembers returns a copy of v in which every member of a map[string]any that is a nil
+// pointer of some type is replaced by an untyped nil.
+func untypeNilMapMembers(v any) (any, bool) {
+	changed := false
+	var walk func(v any, inMap bool) any
+	walk = func(v any, inMap bool) any {
+		switch t := v.(type) {
+		case []any:
+			o := make([]any, len(t))
+			for i, e := range t {
+				o[i] = walk(e, false)
+			}
+			return o
+		case map[string]any:
+			o := map[string]any{}
+			for k, e := range t {
+				o[k] = walk(e, true)
+			}
+			return o
+		case *dReading:
+			c := *t
+			c.Values, _ = walk(t.Values, false).([]any)
+			c.Extra, _ = walk(t.Extra, false).(map[string]any)
+			return &c
+		}
+		if inMap && v != nil {
+			if rv := reflect.ValueOf(v); rv.Kind() == reflect.Ptr && rv.IsNil() {
+				changed = true
+				return nil
+			}
+		}
+		return v
+	}
+	out := walk(v, false)
+	return out, changed
 }
 
 func suiteIfaceMembers(tier string, seed uint64) *Report {
@@ -675,7 +714,7 @@ func suiteIfaceMembers(tier string, seed uint64) *Report {
 		case 1:
 			v = map[string]any{"k": vals, "z": pool()}
 		case 2:
-			v = &dReading{Name: "n", Values: vals, Extra: map[string]any{"k": []any{pool(), pool()}}}
+			v = &dReading{Name: "n", Values: vals, Extra: map[string]any{"k": []any{pool(), pool()}}, Any: pool()}
 		case 3:
 			v = []any{vals, map[string]any{"a": pool()}}
 		}
@@ -708,8 +747,37 @@ func suiteIfaceMembers(tier string, seed uint64) *Report {
 					rep.Add(Disagreement{Case: string(wantB), Where: fmt.Sprintf("%s indent=%d", e.name, indent), Kind: "impl-vs-spec:iface-members", Impl: got, Spec: want, Detail: text})
 				}
 			}
+			// OmitNil: no reference encoder; every encoder must describe the tree oj.JSON describes
+			on := o
+			on.OmitNil = true
+			o = on
+			ref := parsedShow(safe(encs[0].run), false)
+			for _, e := range encs[1:] {
+				text := safe(e.run)
+				got := text
+				if !strings.HasPrefix(text, "F ") {
+					got = parsedShow(text, e.sen)
+				}
+				if got != ref {
+					// exact attribution of the recorded behaviour: with the typed nil pointers that are
+					// members of a map[string]any replaced by untyped nils, this encoder agrees with oj.JSON
+					class := ""
+					if dv, changed := untypeNilMapMembers(v); changed {
+						saved := v
+						v = dv
+						t2 := safe(e.run)
+						r2 := parsedShow(safe(encs[0].run), false)
+						v = saved
+						if !strings.HasPrefix(t2, "F ") && parsedShow(t2, e.sen) == r2 {
+							class = "typed-nil-pointer-map-member-omitnil"
+						}
+					}
+					rep.Add(Disagreement{Case: string(wantB), Where: fmt.Sprintf("%s indent=%d OmitNil", e.name, indent), Kind: "impl-law:iface-members-omitnil", Impl: got, Spec: ref, Detail: text, Class: class})
+				}
+			}
 		}
 	}
-	rep.Rule = "interface-held members: []any / map[string]any values (top level, in a map, in a struct field) holding pointers to scalars, named scalar types, typed nil pointers and plain values; oj.JSON, sen.String, pretty.JSON, pretty.SEN (tight and indented) and alt.Decompose must describe the tree encoding/json describes"
+	_ = 0
+	rep.Rule = "interface-held members (also under OmitNil: all encoders must agree with oj.JSON): []any / map[string]any values (top level, in a map, in a struct field) holding pointers to scalars, named scalar types, typed nil pointers and plain values; oj.JSON, sen.String, pretty.JSON, pretty.SEN (tight and indented) and alt.Decompose must describe the tree encoding/json describes"
 	return rep
 }
